@@ -1,9 +1,11 @@
-// Development helper: does Lua's pcall contain the Go panic raised by load of
-// a corrupted binary chunk (negative UpvalueCount)?
+// Development helper: Lua-level reproductions of the defects in NOTES.md
+// (D1 compile nondeterminism, D2 allocation before charging, D3 Go panic out
+// of load through pcall).
 package main
 
 import (
 	"fmt"
+	"runtime"
 
 	rt "github.com/arnodel/golua/runtime"
 
@@ -12,16 +14,37 @@ import (
 
 func main() {
 	m := host.NewMachine(false)
-	o := m.Exec("chunk", `local d = string.dump(load("local a, b = ... ; emit(a, b) return (a or 1) + 2.5, 'str', 100000")); return d`, nil, &rt.RuntimeContextDef{})
-	fmt.Println(o.Status, len(o.Results))
+	o := m.Exec("chunk", `
+local src = "local a, b = 1, 2 local function f() return a end local function g() return b end return f, g"
+local seen, n = {}, 0
+for i = 1, 40 do
+  local d = string.dump(load(src))
+  if not seen[d] then seen[d] = true n = n + 1 end
+end
+emit("D1: distinct dumps of one source compiled 40 times", n)`, nil, &rt.RuntimeContextDef{})
+	fmt.Println(o)
+
+	var before, after runtime.MemStats
+	runtime.GC()
+	runtime.ReadMemStats(&before)
 	o = m.Exec("chunk", `
 local d = string.dump(load("x = 1"))
--- UpvalueCount is the int16 that precedes RegCount, CellCount, nupnames(8), upname len(8) + "_ENV"
+local srclen = string.unpack("<i8", d, 5)
+local namepos = 5 + 8 + srclen
+local namelen = string.unpack("<i8", d, namepos)
+local ncodepos = namepos + 8 + namelen
+local bad = d:sub(1, ncodepos - 1) .. string.pack("<i8", 1 << 24) .. d:sub(ncodepos + 8)
+local ctx, f, msg = runtime.callcontext({kill = {memory = 65536}}, load, bad, "chunk", "b")
+emit("D2:", ctx.status, ctx.used.memory, f, msg)`, nil, &rt.RuntimeContextDef{})
+	runtime.ReadMemStats(&after)
+	fmt.Println(o)
+	fmt.Println("D2: Go heap allocated during that script:", after.TotalAlloc-before.TotalAlloc, "bytes")
+
+	o = m.Exec("chunk", `
+local d = string.dump(load("x = 1"))
 local pos = #d - (4 + 8 + 8 + 2 + 2 + 2) + 1
-local lo, hi = d:byte(pos, pos + 1)
-emit(lo, hi)
-local bad = d:sub(1, pos) .. string.char(hi | 0x80) .. d:sub(pos + 2)
+local bad = d:sub(1, pos) .. string.char(d:byte(pos + 1) | 0x80) .. d:sub(pos + 2)
 emit(pcall(load, bad, "chunk", "b"))
 return "survived"`, nil, &rt.RuntimeContextDef{})
-	fmt.Println(o)
+	fmt.Println("D3:", o)
 }
